@@ -28,7 +28,7 @@ RULE += ('; also: saves that fail half way (unpicklable value), mutable inputs c
 ASSUMPTIONS = ['exception classes are not compared (KeyError vs FileNotFoundError are both "raises")', 'listings compared as sets',
                'bundles compared structurally (exceptions by type and args)']
 REQUIRED = ['pruning_saves', 'saves_read_back_inside_the_loop', 'saves_compared_with_live', 'failed_saves', 'failed_overwrites', 'ops/save', 'ops/load', 'ops/list', 'ops/listp', 'ops/del', 'ops/delp', 'ops/progress', 'ops/loadrun', 'loads_compared', 'loads_after_progress',
-            'absent_loads', 'overwrites', 'pidkind/int', 'pidkind/uuid', 'pidkind/str', 'pidkind/glob', 'pidkind/suffix']
+            'absent_loads', 'overwrites', 'pidkind/int', 'pidkind/uuid', 'pidkind/str', 'pidkind/glob', 'pidkind/suffix', 'pidkind/punct']
 BOUNDS = {'quick': '900 histories of 6-16 ops', 'thorough': '9000 histories of 8-25 ops'}
 
 
@@ -64,8 +64,10 @@ PROGRAM = {'steps': [S(['wait', 'w0', None], sync=True), S(['cont', [[1, 2]], {}
 # ('glob': separator-free strings that contain characters with a meaning in file-name patterns)
 # ('suffix': separator-free strings made of the letters of the persister's file suffix; one of the UUIDs ends in such a letter too)
 PIDS = {'int': [1, 10, 12], 'uuid': [uuid.UUID(int=7), uuid.UUID(int=8), uuid.UUID(int=12)], 'str': ['job', 'job2', 'a'], 'glob': ['calc[1]', 'calc1', 'job-[a-z]*'],
-        'suffix': ['alice', 'pickle', 'kelp']}
-TAGS = {'int': [None, 1, 2, 0], 'uuid': [None, uuid.UUID(int=77)], 'str': [None, 't', 'tt', 'job', ''], 'glob': [None, 't[0]', '?', 't0'], 'suffix': [None, 'e', 'lick', 't']}
+        'suffix': ['alice', 'pickle', 'kelp'],
+        # ('punct': ids and tags that differ only in a blank or a punctuation mark -- different keys all the same)
+        'punct': ['run 1', 'run_1', 'run+1']}
+TAGS = {'int': [None, 1, 2, 0], 'uuid': [None, uuid.UUID(int=77)], 'str': [None, 't', 'tt', 'job', ''], 'glob': [None, 't[0]', '?', 't0'], 'suffix': [None, 'e', 'lick', 't'], 'punct': [None, 'step 1', 'step#1', 'step_1']}
 OPS = ['save'] * 5 + ['load'] * 5 + ['progress'] * 4 + ['list', 'listp', 'del', 'delp', 'loadrun', 'loadrun', 'badsave', 'prunesave']
 
 
@@ -73,7 +75,7 @@ def gen_cases(tier, seed):
     rng = plans.rng_for(seed, 'c14')
     n, lo, hi = (900, 6, 16) if tier == 'quick' else (9000, 8, 25)
     for h in range(n):
-        kind = ['int', 'uuid', 'str', 'glob', 'suffix'][h % 5]
+        kind = ['int', 'uuid', 'str', 'glob', 'suffix', 'punct'][h % 6]
         hist = []
         keys = set()
         for _ in range(rng.randint(lo, hi)):
